@@ -693,10 +693,13 @@ func (c *Client) Do(ctx context.Context, q Query) (err error) {
 				}
 				ce.Write(zap.Any("columns", info))
 			}
+			// Sending a copy, because result is reused to decode the next
+			// block while the sending goroutine reads the value it received.
+			info := append(proto.ColInfoInput(nil), result...)
 			select {
 			case <-ctx.Done():
 				return ctx.Err()
-			case colInfo <- result:
+			case colInfo <- info:
 				return nil
 			}
 		}
